@@ -62,7 +62,7 @@ def run_one(prop, suite, tier, rule, assumptions, extra_thorough=(), gen=0, extr
                 chk.violation({"kind": "const-twin-diverges", "suite": s, "what": m.get("what", "")[:200],
                                "program": m.get("program", "")}, m)
             elif not cid.endswith("#const") and "#" not in cid and cid in with_twin and cid not in broken_twins \
-                    and m.get("kind") in ("value", "log", "outcome", "watch"):
+                    and m.get("kind") in ("value", "log", "outcome", "watch", "panic", "tag"):
                 # the converse: the program with its constants HIDDEN departs from the specification while the same
                 # program with the constants visible does not - the two twins behave differently
                 chk.violation({"kind": "hidden-twin-diverges", "suite": s, "what": m.get("what", "")[:200],
